@@ -77,7 +77,10 @@ def judge_results(case, obs, drv, allow_comm_error, out):
                         # "abandoned send" desynchronisation of the serial drivers (own signature)
                         theirs = [x["oc"][1] for cl in case["callers"] if cl.get("cancel") is not None
                                   for x in cl["cmds"] if x.get("oc", [""])[0] == "value"]
-                        if got["raw"][1] in theirs and drv in ("luba", "sci"):
+                        # ... or, once the exchange is out of step by one, the answer of this caller's previous query
+                        k = cmds.index(c)
+                        earlier = [x["oc"][1] for x in cmds[:k] if x.get("oc", [""])[0] == "value"]
+                        if (got["raw"][1] in theirs or got["raw"][1] in earlier[-1:]) and drv in ("luba", "sci"):
                             sig = "C17:%s:answer-of-abandoned-send-taken-by-next-command" % drv
                     out.append((sig, "%s: command %s returned %r, expected raw %r" % (where, c, got, exp)))
         elif rec["status"] == "raised":
@@ -356,6 +359,8 @@ def loss_case(draw, driver=None):
             "reconnect_limit": limit, "reconnect_interval": interval, "lat": draw(st.lists(st.floats(0, 0.999), max_size=12)),
             "tie": draw(st.booleans()), "drain_virtual": 60.0,
             "horizon": max([e["t"] for e in events] + [c["t0"] for c in callers]) + interval * 6 + 2}
+    if draw(st.integers(0, 2)) == 0:
+        case["glob"] = True       # the device path is a pattern: an unplugged gateway's node does not exist at all
     if drv == "tridonic":
         case["seq0"] = draw(st.sampled_from([1, 200, 255]))
     return case
@@ -374,6 +379,12 @@ def cancel_case(draw, driver=None):
     cmds = [{"k": "dapc", "a": i % 64, "p": (i * 7) % 254} for i in range(n)]
     if draw(st.booleans()):
         cmds[draw(st.integers(0, n - 1))] = {"k": "qlevel", "a": 9, "oc": ["value", 0x42]}
+    if draw(st.booleans()):
+        # the follow-up traffic starts with queries whose own outcome differs from the abandoned command's:
+        # a report that still arrives for the abandoned command must not be handed to them
+        for j in range(draw(st.integers(1, 3))):
+            oc = draw(st.sampled_from([["silent"], ["silent"], ["value", 0x17 + j]]))
+            cmds[j] = {"k": ["qstatus", "qlevel", "qpresent"][j], "a": 20 + j, "oc": oc}
     callers.append({"kind": "seq", "cmds": cmds, "t0": draw(st.sampled_from([0.0, 0.03, 0.2]))})
     case = {"family": "cancel", "driver": drv, "callers": callers, "lat": draw(st.lists(st.floats(0, 0.999), max_size=8)),
             "tie": draw(st.booleans()), "drain_virtual": 120.0}
@@ -390,8 +401,19 @@ def mute_case(draw, driver=None):
         kind = draw(st.sampled_from(["send", "seq"]))
         cmds = [_cmd(draw, 2 + ci * 9 + j, Q + ["dapc", "reset"]) for j in range(1 if kind == "send" else draw(st.integers(1, 3)))]
         callers.append({"kind": kind, "cmds": cmds, "t0": draw(st.sampled_from([0.0, 0.01, 0.05, 0.3]))})
-    what = draw(st.sampled_from(["mute", "mute_answers"]))
-    if what == "mute_answers":
+    what = draw(st.sampled_from(["mute", "mute_answers", "mute_mid"]))
+    if what == "mute_mid":
+        # silence begins in the middle of a packet: its first byte(s) are the last thing the host hears
+        events = [{"t": draw(st.sampled_from([-0.001, 0.0, 0.004, 0.02, 0.04])), "what": "mute_mid",
+                   "bytes": draw(st.integers(1, 6))}]
+        for c in callers:
+            for x in c["cmds"]:
+                if "oc" in x:
+                    x["oc"] = ["silent"]
+        # later traffic must still get its (timely) "no answer": nobody may wait for the rest of that packet for ever
+        callers.append({"kind": "send", "cmds": [{"k": "qlevel", "a": 50, "oc": ["silent"]}], "t0": 3.0})
+        callers.append({"kind": "seq", "cmds": [{"k": "dapc", "a": 51, "p": 9}, {"k": "qstatus", "a": 52, "oc": ["silent"]}], "t0": 6.5})
+    elif what == "mute_answers":
         # the gateway keeps confirming but never reports an answer: every query must come back as "no answer"
         events = [{"t": -0.001, "what": "mute_answers"}]
     else:
@@ -413,6 +435,8 @@ def features(case):
         f.append("fault-while-caller-in-flight")
     for e in case.get("events", []):
         f.append("event:" + e["what"] + (":silent" if e.get("notify") is False else ":eof" if e.get("eof") else ""))
+    if case.get("glob"):
+        f.append("device-path-is-a-glob-pattern")
     if case["family"] == "loss":
         f.append("limit:%r" % case.get("reconnect_limit"))
         f.append("exceptions:%s" % case.get("exceptions"))
